@@ -58,7 +58,9 @@ func fnBitCount(ctx *cmdContext, args map[string]any) (output respValue, err err
 	if start < 0 {
 		start = 0
 	} else if start >= length {
-		start = length - 1
+		// the range starts beyond the end: nothing to count
+		output.data = respInt(0)
+		return
 	}
 
 	if end < start {
